@@ -443,11 +443,10 @@ def msgRecvPacket (s : ChainState) (env : Env) (p : PacketV1) (app : AppV1) : Ch
     (appChild, .ok "")                                    -- writeFn(): ack == nil, nothing written
   | .selfack =>
     -- the application called WriteAcknowledgement itself inside the callback (on the child) …
-    let appChild := match writeAckV1 appChild p (some app.ack) with
-      | .ok c => c
-      | .error _ => appChild
-    -- … and returned a successful acknowledgement as well
-    done s (writeAckV1 appChild p (some app.ack))
+    -- … and returned a successful acknowledgement as well (writeFn(), second write on ctx)
+    match writeAckV1 appChild p (some app.ack) with
+    | .ok c => done s (writeAckV1 c p (some app.ack))
+    | .error _ => done s (writeAckV1 appChild p (some app.ack))
 
 /-- common tail of Acknowledgement / Timeout / TimeoutOnClose: callback AFTER writeFn(), on ctx;
     a callback error fails the tx (state reverted by the SDK). -/
